@@ -139,6 +139,18 @@ impl<'de> Deserialize<'de> for Detection {
                         expression
                     )));
                 }
+                // NOTE: all(X) / of(X, n) count the members of a list as they were written, so a
+                // list that is all there is to X must not be batched by kind
+                let mut counted = std::collections::HashSet::new();
+                counted_identifiers(&expression, &mut counted);
+                for identifier in counted {
+                    if let Some(v) = identifiers_raw.get(&identifier) {
+                        let e = parser::parse_counted_identifier(v).map_err(|e| {
+                            de::Error::custom(format!("failed to parse identifier - {:?}", e))
+                        })?;
+                        identifiers.insert(identifier, e);
+                    }
+                }
                 Ok(Detection {
                     expression,
                     identifiers,
